@@ -753,6 +753,12 @@ func subWriteSide() mon.Sub {
 				} else {
 					w = wsutil.NewWriterSize(dst, st, ws.OpBinary, []int{16, 200, 4096}[c.I%3])
 				}
+				if (c.I/len(apis)/len(sizes))%2 == 1 {
+					// an endpoint with an extension negotiated (permessage-deflate's per-message state, this message
+					// not compressed): the caller's bytes are no more the library's to change than without it
+					w.SetExtensions(&wsflate.MessageState{})
+					det["send_extension_attached"] = true
+				}
 				// write in pieces; scribble each piece right after Write returned
 				for off := 0; off < len(p); {
 					k := 1 + c.Rng.Intn(len(p)-off)
@@ -781,6 +787,10 @@ func subWriteSide() mon.Sub {
 					wst = ws.StateServerSide
 				}
 				w := wsutil.NewWriterSize(dst, wst, ws.OpBinary, 64)
+				if (c.I/len(apis)/len(sizes))%2 == 1 {
+					w.SetExtensions(&wsflate.MessageState{})
+					det["send_extension_attached"] = true
+				}
 				_, err = w.WriteThrough(p)
 				if err == nil {
 					if !bytes.Equal(p, orig) {
